@@ -52,8 +52,14 @@ def generate(rng: random.Random, tier: str) -> dict:
             ops.append({"op": "cleanup", "max_age": rng.choice(MAX_AGES + [None])})
         elif r < 0.64:
             ops.append({"op": "list_mutate", "how": rng.choice(["add", "remove", "clear", "replace"])})
-        elif r < 0.66:
+        elif r < 0.65:
             ops.append({"op": "clear"})
+        elif r < 0.66:
+            # the embedding application re-seeds the process-wide random module (a seeded game, a test harness, a forked worker)
+            sd = rng.choice([0, 1234])
+            for _q in range(2):
+                ops.append({"op": "reseed_random", "seed": sd})
+                ops.append({"op": rng.choice(["create", "initialize"]), "info": {"name": "after-reseed"}, "version": VERSIONS[0], "meta": None, "sid": None})
         elif r < 0.70:
             ops.append({"op": "count"})
         elif r < 0.80:
@@ -230,6 +236,10 @@ def execute(scn: dict) -> dict:
                         listing.clear()
                     elif op["how"] == "replace" and listing:
                         listing[sorted(listing)[0]] = None
+                elif o == "reseed_random":
+                    import random as _global_random
+                    _global_random.seed(op["seed"])
+                    probe("process_wide_random_reseeded")
                 elif o == "clear":
                     r = mgr.clear_all_sessions()
                     if r != len(model):
@@ -307,8 +317,13 @@ def execute(scn: dict) -> dict:
                 check_state(f"op#{k} {o}")
         st["final"] = len(model)
 
+    import random as _global_random
+    _saved_random_state = _global_random.getstate()
     with patched((memmod, "time", clock), (_uuid, "uuid4", fu)):
-        info = run_sim(main, max_steps=500_000, max_vtime=5000.0)
+        try:
+            info = run_sim(main, max_steps=500_000, max_vtime=5000.0)
+        finally:
+            _global_random.setstate(_saved_random_state)
     sim = info.sim
     out = {"violations": st["viol"], "digest": sim.digest(), "isig": "", "faults": dict(sim.faults),
            "probes": probes, "vtime": info.vtime, "steps": info.steps, "harness": list(sim.harness_errors),
